@@ -253,6 +253,10 @@ def getitem(eng, st, base, sl):
         if kind[0] == 'slice':
             lo = to_z3(kind[1], INT) if kind[1] is not None else z3.IntVal(0)
             hi = to_z3(kind[2], INT) if kind[2] is not None else to_z3(r.n, INT)
+            # numpy clamps slice bounds silently (and counts negative ones from the end); the encoding does not, so the bounds
+            # being in range and ordered is an obligation
+            if kind[1] is not None or kind[2] is not None:
+                eng.oblige(st, 'bounds/slice:%s' % ast.unparse(sl)[:24], z3.And(lo >= 0, lo <= hi, hi <= to_z3(r.n, INT)), kind='safety')
             return Row(hi - lo, lambda q, r=r, lo=lo: r.fn(lo + q), r.esort)
         raise OutOfSubset('1-D index kind %s' % kind[0])
     if nd == 2:
@@ -322,7 +326,30 @@ def getitem(eng, st, base, sl):
 
 def setitem(eng, st, base, sl, val, node):
     if isinstance(base, Opaque) and base.kind == 'flat':
-        raise OutOfSubset('.flat store')
+        # M.flat[idx] = scalar with idx a 1-D array of flat positions: every addressed cell is overwritten.  Validity of the
+        # positions is a safety obligation (provable only for positions that come from np.where(X.flat) of an equally shaped X)
+        tgt = base.base
+        if not isinstance(tgt, Ref) or st.heap[tgt.oid].ndim != 2 or isinstance(val, (Ref, Row, Mat)):
+            raise OutOfSubset('.flat store form')
+        kind = _idx_kind(eng, st, sl)
+        if kind[0] != 'fancy':
+            raise OutOfSubset('.flat store with index kind %s' % kind[0])
+        f = kind[1]
+        o = st.heap[tgt.oid]
+        n0, n1 = to_z3(o.shape[0], INT), to_z3(o.shape[1], INT)
+        L = to_z3(f.n, INT)
+        t = z3.Int('t!fs')
+        it = to_z3(f.fn(t), INT)
+        eng.oblige(st, 'bounds/flatstore:%s' % ast.unparse(node)[:24],
+                   z3.ForAll([t], z3.Implies(z3.And(t >= 0, t < L), z3.And(core.frow(it, n1) >= 0, core.frow(it, n1) < n0, core.fcol(it, n1) >= 0, core.fcol(it, n1) < n1, core.fvalid(it, n0, n1)))), kind='safety')
+        old = o.term
+        v = to_z3(val, o.esort)
+        o.term = define2(st, o.esort, lambda x, y: z3.If(z3.Exists([t], z3.And(t >= 0, t < L, core.frow(it, n1) == x, core.fcol(it, n1) == y)), v, z3.Select(z3.Select(old, x), y)))
+        o.meta = {}
+        # for ghost code: the cells addressed by the most recent flat store, however the index expression is written
+        st.ghost['_flat_store'] = (materialise(eng, st, Row(f.n, lambda q, f=f, n1=n1: core.frow(to_z3(f.fn(q), INT), n1), INT)),
+                                   materialise(eng, st, Row(f.n, lambda q, f=f, n1=n1: core.fcol(to_z3(f.fn(q), INT), n1), INT)), f.n)
+        return
     if not isinstance(base, Ref):
         raise OutOfSubset('store into non-heap value')
     o = st.heap[base.oid]
@@ -487,6 +514,8 @@ def np_where(eng, st, args, kw, node):
         c, a, b = args
         return elementwise2(eng, st, lambda p, q: p, elementwise2(eng, st, lambda cc, aa: (cc, aa), c, a), b) if False else _where3(eng, st, c, a, b)
     v = args[0]
+    if isinstance(v, Opaque) and v.kind == 'flat':
+        return _where_flat(eng, st, v.base)
     if ndim_of(eng, st, v) == 2:
         m = as_mat(eng, st, v)
         n0, n1 = to_z3(m.shape[0], INT), to_z3(m.shape[1], INT)
@@ -526,6 +555,31 @@ def np_where(eng, st, args, kw, node):
     # emptiness form (no Skolem function; patterns inferred from the condition): a position satisfying the condition makes the result non-empty
     st.pc.append(z3.ForAll([x], z3.Implies(z3.And(x >= 0, x < n0, truth(r.fn(x))), k >= 1)))
     return TupleV((alloc(st, 1, it, (k,), INT, {'where_idx': widx, 'where_cond1': (lambda q, r=r: r.fn(q)), 'where_n': r.n}),))
+
+
+def _where_flat(eng, st, base):
+    """np.where(M.flat) for a 2-D M: the flat (row-major) positions of the true cells, ascending.  The flat position i of an
+    n0 x n1 array denotes the cell (frow(i, n1), fcol(i, n1)); these two functions are constrained only for the positions
+    returned here (in range, the condition holds there, distinct positions denote distinct cells, every true cell has a
+    position), so nothing can be derived about a flat position that is not known to be valid."""
+    if ndim_of(eng, st, base) != 2:
+        raise OutOfSubset('np.where(x.flat) of a non 2-D value')
+    m = as_mat(eng, st, base)
+    n0, n1 = to_z3(m.shape[0], INT), to_z3(m.shape[1], INT)
+    k = fresh('k_fwhere', INT)
+    ix = fresh('fix', A1I)
+    e, f, x, y = z3.Ints('e!fw f!fw x!fw y!fw')
+    ie, i_f = z3.Select(ix, e), z3.Select(ix, f)
+    re_, ce = core.frow(ie, n1), core.fcol(ie, n1)
+    st.pc.append(k >= 0)
+    st.pc.append(z3.ForAll([e], z3.Implies(z3.And(e >= 0, e < k), z3.And(ie >= 0, core.fvalid(ie, n0, n1), re_ >= 0, re_ < n0, ce >= 0, ce < n1, truth(m.fn(re_, ce)))), patterns=[z3.Select(ix, e)]))
+    st.pc.append(z3.ForAll([e, f], z3.Implies(z3.And(e >= 0, e < f, f < k), z3.And(ie < i_f, z3.Or(re_ != core.frow(i_f, n1), ce != core.fcol(i_f, n1)))),
+                           patterns=[z3.MultiPattern(z3.Select(ix, e), z3.Select(ix, f))]))
+    fwid = z3.Function('fwid!%d' % next(core._fresh), INT, INT, INT)
+    w = fwid(x, y)
+    st.pc.append(z3.ForAll([x, y], z3.Implies(z3.And(x >= 0, x < n0, y >= 0, y < n1, truth(m.fn(x, y))),
+                                              z3.And(w >= 0, w < k, core.frow(z3.Select(ix, w), n1) == x, core.fcol(z3.Select(ix, w), n1) == y)), patterns=[fwid(x, y)]))
+    return TupleV((alloc(st, 1, ix, (k,), INT, {'flat_where': (m, n0, n1), 'fwid': fwid}),))
 
 
 def _where3(eng, st, c, a, b):
@@ -627,6 +681,20 @@ def np_logical_and(eng, st, args, kw, node):
     return elementwise2(eng, st, lambda a, b: z3.And(truth(a), truth(b)), args[0], args[1], esort=BOOL)
 
 
+def np_minimum(eng, st, args, kw, node):
+    def f(a, b):
+        x, y = num2(to_z3(a), to_z3(b))
+        return z3.If(x <= y, x, y)
+    return elementwise2(eng, st, f, args[0], args[1])
+
+
+def np_maximum(eng, st, args, kw, node):
+    def f(a, b):
+        x, y = num2(to_z3(a), to_z3(b))
+        return z3.If(x >= y, x, y)
+    return elementwise2(eng, st, f, args[0], args[1])
+
+
 def np_logical_or(eng, st, args, kw, node):
     return elementwise2(eng, st, lambda a, b: z3.Or(truth(a), truth(b)), args[0], args[1], esort=BOOL)
 
@@ -695,6 +763,49 @@ def np_arange(eng, st, args, kw, node):
         lo = to_z3(args[0], INT)
         return Row(to_z3(args[1], INT) - lo, lambda q: lo + q, INT)
     raise OutOfSubset('arange with step')
+
+
+def np_append(eng, st, args, kw, node):
+    """np.append(a, b) for 1-D a, b (or a tuple/list of scalars): concatenation."""
+    if kw:
+        raise OutOfSubset('np.append with axis')
+    parts = []
+    for a in args[:2]:
+        if isinstance(a, (tuple, list)) and not isinstance(a, Opaque):
+            parts.append(as_row(eng, st, a))
+        elif ndim_of(eng, st, a) == 1:
+            parts.append(as_row(eng, st, a))
+        else:
+            raise OutOfSubset('np.append of a non 1-D value')
+    a, b = parts
+    na = to_z3(a.n, INT)
+    srt = REAL if REAL in (a.esort, b.esort) else a.esort
+    return Row(z3.simplify(na + to_z3(b.n, INT)), lambda q, a=a, b=b, na=na: z3.If(q < na, to_z3(a.fn(q), srt), to_z3(b.fn(q - na), srt)), srt)
+
+
+def ext_toeplitz(eng, st, args, kw, node):
+    """scipy.linalg.toeplitz(c, r): T[x][y] = c[x - y] for x >= y, r[y - x] otherwise (ASSUMED library contract; c[0] wins on the diagonal)."""
+    c = as_row(eng, st, args[0])
+    r = as_row(eng, st, kw['r'] if 'r' in kw else (args[1] if len(args) > 1 else args[0]))
+    return Mat((c.n, r.n), lambda x, y, c=c, r=r: z3.If(x >= y, to_z3(c.fn(x - y), REAL), to_z3(r.fn(y - x), REAL)), REAL)
+
+
+def ext_norm_pdf(eng, st, args, kw, node):
+    """scipy.stats.norm.pdf(x, loc, scale) for a range / 1-D x: a positive real per entry (ASSUMED; the value itself is left abstract)."""
+    x = args[0]
+    if isinstance(x, Opaque) and x.kind == 'range':
+        a = x.args
+        lo, hi = (0, a[0]) if len(a) == 1 else (a[0], a[1])
+        n = z3.simplify(to_z3(hi, INT) - to_z3(lo, INT))
+    else:
+        n = as_row(eng, st, x).n
+    t = fresh('pdf', A1R)
+    q = z3.Int('q!pdf')
+    st.pc.append(z3.ForAll([q], z3.Select(t, q) > 0, patterns=[z3.Select(t, q)]))
+    return alloc(st, 1, t, (n,), REAL)
+
+
+EXT_SPECS = {'linalg.toeplitz': ext_toeplitz, 'stats.norm.pdf': ext_norm_pdf}
 
 
 def np_size(eng, st, args, kw, node):
@@ -1004,8 +1115,16 @@ def rng_method(eng, st, obj, name, args, kw, node):
         val = vals[0] if size is None else TupleV(vals)
         return Fork([(ok, val, None), (k <= 0, None, ExcV('ValueError'))])
     if name == 'random_sample':
-        if args or kw:
-            raise OutOfSubset('random_sample with size')
+        if kw:
+            raise OutOfSubset('random_sample with keyword size')
+        if args:
+            sh = args[0]
+            if not (isinstance(sh, (tuple, list)) and len(sh) == 2):
+                raise OutOfSubset('random_sample with a non 2-D size')
+            t = fresh('unif2', A2R)
+            x, y = z3.Ints('x!u y!u')
+            st.pc.append(z3.ForAll([x, y], z3.And(z3.Select(z3.Select(t, x), y) >= 0, z3.Select(z3.Select(t, x), y) < 1), patterns=[z3.Select(z3.Select(t, x), y)]))
+            return alloc(st, 2, t, (sh[0], sh[1]), REAL)
         v = fresh('unif', REAL)
         st.pc += [v >= 0, v < 1]
         return v
